@@ -643,7 +643,12 @@ impl RADAU {
                 let r = cont[i] / scal[i];
                 err += r * r;
             }
-            err = (err / n as Float).sqrt().max(1e-10);
+            err = (err / n as Float).sqrt();
+            // Keep a NaN norm (non-finite right-hand side) so the step is rejected:
+            // `NaN.max(1e-10)` would turn it into an accepted step.
+            if !err.is_nan() {
+                err = err.max(1e-10);
+            }
 
             // Optional refinement on first/rejected step
             if err >= 1.0 && (first || reject) {
@@ -665,7 +670,10 @@ impl RADAU {
                     let r = cont[i] / scal[i];
                     err += r * r;
                 }
-                err = (err / n as Float).sqrt().max(1e-10);
+                err = (err / n as Float).sqrt();
+                if !err.is_nan() {
+                    err = err.max(1e-10);
+                }
             }
 
             // --- Computation of hnew ---
